@@ -19,7 +19,7 @@ P = {
  "C04": ("exploration", "output re-parse monitor (typst-syntax error flag) over all widths incl. 0/1/2", "6.4",
          "Held on every execution explored: the output of a well-formed input parses without errors. Width sweep always contains 0, 1, 2 where everything that can break does break; line and block comments are injected before every closer.",
          "typst-syntax 0.13.1's `erroneous()` is the definition of syntax error."),
- "C05": ("exploration", "totality monitor: catch_unwind + panic location hook + CPU budget + refusal rule; the workload runs in a supervised child process whose SIGABRT handler leaves a breadcrumb naming the input being formatted (aborts are confirmed in an isolated worker); isolated worker processes for depth ladders; ASan replay and sharded Miri in the thorough tier", "6.5",
+ "C05": ("exploration", "totality monitor: catch_unwind + panic location hook + CPU budget + refusal rule; the workload runs in a supervised child process whose SIGABRT handler leaves a breadcrumb naming the input being formatted (aborts are confirmed in an isolated worker); isolated worker processes for depth ladders; ASan replay, valgrind memcheck and sharded Miri in the thorough tier", "6.5",
          "No panic, abort, signal or budget overrun on any observed call; refusal iff the reference parser reports errors; the string convenience entry point returns erroneous input unchanged. Depth ladders run in fresh processes so that a stack overflow is attributed, not fatal to the monitor.",
          "CPU budget 10 s/call; release profile; parser-limited depth; sanitizers only see paths the workload drives."),
  "C06": ("exploration", "interleaved word/comment stream monitor over systematic comment injection", "6.6",
@@ -34,10 +34,10 @@ P = {
  "C09": ("exploration", "math gap-class monitor (none/space/newline) for every paired Math/MathDelimited node", "6.9",
          "Gap classes between adjacent atoms and Equation block flags are equal in input and output trees on every explored execution; exempt positions are exactly the statement's list.",
          "Embedded code after # is opaque; empty math arguments carry no gaps."),
- "C10": ("exploration", "literal sequence monitor (kind, text) incl. Raw as (block, lang, lines, fence)", "6.10",
+ "C10": ("exploration", "literal sequence monitor (kind, text) incl. Raw as (block, lang, lines, fence), after whole-document formatting and after splicing the result of range formatting for every leaf's range of sources with multi-line literals", "6.10",
          "The in-order sequence of literals of the output tree equals the input's on every explored execution (known: blanks before a line break inside string/raw literals, pinned by upstream snapshots).",
          "typst-syntax's Raw::lines()/lang()/block() define raw content."),
- "C11": ("exploration", "output hygiene scan of every returned string", "6.11",
+ "C11": ("exploration", "output hygiene scan of every returned string, and of every file / standard output the CLI produces when several documents (half of them blank-only) go through one process", "6.11",
          "Every Ok output observed is non-empty, ends with LF and has no LF-delimited line ending in a char::is_whitespace character, including degenerate documents and EOL-blank mutants (ASCII and non-ASCII blanks).",
          "Lines are LF-delimited."),
  "C12": ("exploration", "eight-way indent comparison (tab_spaces 1..8 at width 2^40) with exempt lines recomputed from each output tree", "6.12",
@@ -55,7 +55,7 @@ P = {
  "C16": ("exploration", "front-end agreement monitor: CLI stdout / stdin / in-place / format-all and format_with_width vs the library linked into the harness", "6.16",
          "Byte equality with Typstyle::format_content for every explored (source, column, tab-width, reorder, front-end); several files concatenate in argument order; erroneous input is passed through.",
          "The wasm export cannot be built here (no wasm32 target); it is a one-line forwarder to format_with_width, which is monitored."),
- "C17": ("exploration", "history monitor against a fresh-process reference (sequential, shuffled, 2..64 threads, shared Source, varied environment) with a call event log; ThreadSanitizer + Miri (many seeds) in the thorough tier", "6.17",
+ "C17": ("exploration", "history monitor against a fresh-process reference (sequential, shuffled, 2..64 threads, shared Source, varied environment, configuration crosstalk: all configurations of one text in flight at once) with a call event log; ThreadSanitizer + Miri (many seeds) in the thorough tier", "6.17",
          "Every call in every observed history returned the fresh-process reference byte for byte; twin documents with identical span numbering make span-keyed leftovers visible; overlapping call pairs are counted in evidence.",
          "No internal yield points exist; races are decided by TSan/Miri happens-before, logical leakage by the history monitor."),
  "C18": ("exploration", "hook-counter monitor (conversions <= 2*nodes+8) on corpus and depth ladders; allocation and CPU-growth monitors", "6.18",
